@@ -13,17 +13,26 @@ THEOREMS = ["C18_read", "C18_position", "C18_write", "C18_lasdata_write", "C18_a
 def make_files(ck):
     """(label, bytes, info) for valid / damaged contents"""
     out = []
-    for minor, fmt, n, nev in ((2, 3, 0, 0), (2, 1, 4, 0), (4, 6, 0, 0), (4, 6, 0, 2), (4, 7, 5, 0), (4, 6, 3, 1)):
+    # the last two have more than 8 KiB / 64 KiB of VLRs between the header and the first point record
+    for minor, fmt, n, nev, vlr_bytes in ((2, 3, 0, 0, 0), (2, 1, 4, 0, 0), (4, 6, 0, 0, 0), (4, 6, 0, 2, 0), (4, 7, 5, 0, 0), (4, 6, 3, 1, 0),
+                                          (2, 1, 4, 0, 9000), (4, 6, 3, 1, 70000)):
         ev = None
         if minor >= 4 and nev:
             ev = [("verif", i + 1, "e", bytes(range(5 + i))) for i in range(nev)]
-        las = fio.make_las(ck.rng, minor, fmt, n, evlrs=ev)
+        vl = []
+        left, k = vlr_bytes, 0
+        while left > 0:
+            take = min(left, 40000)
+            vl.append(("verif_big", 100 + k, "filler", bytes((7 * i + k) % 251 for i in range(take))))
+            left -= take
+            k += 1
+        las = fio.make_las(ck.rng, minor, fmt, n, evlrs=ev, vlrs=vl)
         buf = io.BytesIO()
         las.write(buf)
         data = buf.getvalue()
         info = dict(sig=1, hc=1, coh=1, wr=1, m4=int(minor >= 4), np=n, ne=nev, off=las.header.offset_to_point_data if False else int.from_bytes(data[96:100], "little"),
                     rl=las.header.point_format.size)
-        out.append((f"valid v1.{minor} fmt{fmt} n={n} evlrs={nev}", data, info))
+        out.append((f"valid v1.{minor} fmt{fmt} n={n} evlrs={nev}" + (f" vlr_bytes={vlr_bytes}" if vlr_bytes else ""), data, info))
     base = out[1][1]
     binfo = out[1][2]
     out.append(("invalid signature", b"XXXX" + base[4:], dict(binfo, sig=0)))
